@@ -487,7 +487,7 @@ func runC05(t fataler, c c05Case) (string, c05Result) {
 func TestC05(t *testing.T) {
 	rec := evid.For("C05")
 	rec.Rule = "rapid-generated concurrent cases inside a synctest bubble: 2-5 writers each sending a numbered series of provenance-tagged messages by Write or a streaming Writer with chunk lists (scheduled at drawn virtual instants with pauses, or all free-running at once), 0-2 pingers, one reader that answers the peer's Pings while reading a large fragmented (optionally compressed) inbound message in small buffers, a closer {none, Close, CloseNow, CloseRead + data message, expiry of the reader's context} firing at a drawn instant, an optional transport gate that accepts only k more bytes (a frame held half-written) and a bounded transport buffer; role x compression mode x threshold. The same cases run under the race detector. Non-trivial: >=2 writers with overlapping activity and >=1 multi-frame message. distinct = hash of the case."
-	rapid.Check(t, func(rt *rapid.T) {
+	checkProp(t, func(rt *rapid.T) {
 		c := genC05(rt)
 		var msg string
 		var res c05Result
